@@ -1,7 +1,8 @@
 #!/usr/bin/env python3
 """Run every seeded change in /verif/seeded against the check(s) of its property on a scratch worktree of /repo's
 HEAD and record which violation keys fire in seeded/<id>/meta.json ("caught_by").  Development tool.
-usage: tools/seedmatrix.py [ID ...]      env TIER=quick|thorough"""
+usage: tools/seedmatrix.py [ID ...]      env TIER=quick|thorough; VERIF_SEED=n (with NOWRITE=1: print only, used to see
+whether detection depends on the draw)"""
 import json, os, subprocess, sys, tempfile
 HERE = os.path.dirname(os.path.dirname(os.path.abspath(__file__)))
 EXTRA = {"C15-B": ["C15", "C16"], "C12-B": ["C12", "C14"]}
@@ -38,7 +39,8 @@ for sid in ids:
             meta["caught_by"] = caught
             meta["caught_checked_at"] = dict(repo_head=head, tier=os.environ.get("TIER", "quick"))
             rows.append((sid, "; ".join("%s:%s" % (p, c["verdict"]) for p, c in caught.items())))
-        json.dump(meta, open(os.path.join(d, "meta.json"), "w"), indent=1)
+        if not os.environ.get("NOWRITE"):
+            json.dump(meta, open(os.path.join(d, "meta.json"), "w"), indent=1)
         print("%-8s %s" % rows[-1], flush=True)
     finally:
         subprocess.call(["git", "-C", "/repo", "worktree", "remove", "--force", wt])
